@@ -57,9 +57,46 @@ class _Asyncio(types.ModuleType):
         self.loop = loop
 
 
+class _Surroundings:
+    """What start_listen reaches outside itself, replaced for the duration of one call - by IDENTITY, wherever a module of
+    taskiq.cli bound it (the function under any name, its module under any alias), never by assigning to a name of
+    taskiq.cli.worker.run: import_object / import_tasks of taskiq.cli.utils, the `signal` module, optionally `asyncio`."""
+
+    def __init__(self, import_object, sig, aio=None):
+        self.io, self.sig, self.aio = import_object, sig, aio
+
+    def __enter__(self):
+        import patchall
+        import taskiq.cli.utils as cu
+        self.real = (cu.import_object, cu.import_tasks)
+        patchall.patch_attr(cu, "import_object", self.io, prefix="taskiq.cli")
+        patchall.patch_attr(cu, "import_tasks", lambda *a, **k: None, prefix="taskiq.cli")
+        patchall.replace_everywhere(real_signal, self.sig, prefix="taskiq.cli.worker")
+        patchall.replace_everywhere(real_signal.signal, self.sig.signal, prefix="taskiq.cli.worker")
+        if self.aio is not None:
+            patchall.replace_everywhere(real_asyncio, self.aio, prefix="taskiq.cli.worker")
+        if getattr(wrun, "uvloop", None) is not None:
+            self.uvloop, wrun.uvloop = wrun.uvloop, None
+        return self
+
+    def __exit__(self, *exc):
+        import patchall
+        import taskiq.cli.utils as cu
+        patchall.patch_attr(cu, "import_object", self.real[0], prefix="taskiq.cli")
+        patchall.patch_attr(cu, "import_tasks", self.real[1], prefix="taskiq.cli")
+        patchall.replace_everywhere(real_signal, real_signal, prefix="taskiq.cli.worker")
+        patchall.replace_everywhere(real_signal.signal, real_signal.signal, prefix="taskiq.cli.worker")
+        if self.aio is not None:
+            patchall.replace_everywhere(real_asyncio, real_asyncio, prefix="taskiq.cli.worker")
+        if hasattr(self, "uvloop"):
+            wrun.uvloop = self.uvloop
+        return False
+
+
+
 def receiver_kwargs_via_cli(argv, broker):
-    saved = {k: getattr(wrun, k) for k in ("import_object", "import_tasks", "signal", "asyncio", "uvloop")}
-    real_import = saved["import_object"]
+    import taskiq.cli.utils as _cu
+    real_import = _cu.import_object
 
     def import_object(path):
         if path == BROKER_PATH:
@@ -71,17 +108,11 @@ def receiver_kwargs_via_cli(argv, broker):
     _Capture.captured = None
     aio = _Asyncio("asyncio")
     try:
-        wrun.import_object = import_object
-        wrun.import_tasks = lambda *a, **k: None
-        wrun.signal = _Signal()
-        wrun.asyncio = aio
-        wrun.uvloop = None
-        args = WorkerArgs.from_cli(argv)
-        args.configure_logging = False
-        wrun.start_listen(args)
+        with _Surroundings(import_object, _Signal(), aio):
+            args = WorkerArgs.from_cli(argv)
+            args.configure_logging = False
+            wrun.start_listen(args)
     finally:
-        for k, v in saved.items():
-            setattr(wrun, k, v)
         lp = getattr(aio, "loop", None)
         if lp is not None and not lp.is_closed():
             lp.close()
@@ -255,8 +286,8 @@ def run_start_listen(argv, get_broker, get_receiver, new_loop, ctl, broker_as="o
                        interrupt_handler closure of this start_listen call (the driver calls it to request a stop).
     ctl (a dict the caller owns) gets "signal", "policy", "args"; the loop is ctl["policy"].created[0].  The caller closes
     the loop (vloop.finish)."""
-    saved = {k: getattr(wrun, k) for k in ("import_object", "import_tasks", "signal", "uvloop")}
-    real_import = saved["import_object"]
+    import taskiq.cli.utils as _cu
+    real_import = _cu.import_object
     old_policy = real_asyncio.get_event_loop_policy()
     policy = _LoopPolicy(new_loop)
     ctl["policy"] = policy
@@ -273,17 +304,13 @@ def run_start_listen(argv, get_broker, get_receiver, new_loop, ctl, broker_as="o
             return get_receiver()
         return real_import(path)
 
+    ctl["signal"] = _Signal()
     try:
-        wrun.import_object = import_object
-        wrun.import_tasks = lambda *a, **k: None
-        wrun.signal = ctl["signal"] = _Signal()
-        wrun.uvloop = None
-        real_asyncio.set_event_loop_policy(policy)
-        args = WorkerArgs.from_cli(argv)
-        args.configure_logging = False
-        ctl["args"] = args
-        wrun.start_listen(args)
+        with _Surroundings(import_object, ctl["signal"]):
+            real_asyncio.set_event_loop_policy(policy)
+            args = WorkerArgs.from_cli(argv)
+            args.configure_logging = False
+            ctl["args"] = args
+            wrun.start_listen(args)
     finally:
-        for k, v in saved.items():
-            setattr(wrun, k, v)
         real_asyncio.set_event_loop_policy(old_policy)
